@@ -426,7 +426,8 @@ def run_parsescope(ctx):
         forks = [c for c in hb.calls if c.callee.endswith("LocalVariables::<'a>::fork") and c.dest and pr is not None
                  and pr == (c.dest["l"], ())]
         # the copy must be taken before the statement is created
-        late = [c for c in forks for n in news if n.body is hb and c.bb in hb.reachable_after(n.bb)]
+        # (a loop over the statements reaches the next statement's copy from the previous creation: dominance, not reachability)
+        late = [c for c in forks for n in news if n.body is hb and not hb.dominates(c.bb, n.bb)]
         if not forks:
             res.bad(key, "Code::parse folds a statement against the scope its creation just registered into (the scope handed to recreate "
                          "is not a LocalVariables::fork copy): in `x := mut 1; x := (x, 2)` the read of x on the right is re-resolved to "
@@ -793,4 +794,52 @@ def run_pairfield(ctx):
                                  "admit): e.g. `s[:b:c]` evaluated as `s[b::c]` - wrong elements, silently"
                             % (SLICE_PARTS[pos], " / ".join("`%s`" % r for r in sorted(rules))), b.where(b.blocks[bb]["term"].get("line")))
     res.floor(n, 3, "bound expressions built from pairs")
+    return res
+
+
+# ----------------------------------------------------------------------------------------------------------------------
+SLICE_EXEC = "<instruction::slicing::Slicing as instruction::Exec>::exec"
+
+
+def run_slicemin(ctx):
+    res = RuleResult("R-SLICEMIN", "slyce negates negative bounds, and MIN_INT has no magnitude: every i64 -> isize conversion of a slice "
+                                   "bound in Slicing::exec (and its helpers) takes a value that went through Ord::max / clamp first (D32)")
+    from ..owners import for_crate
+    lib = ctx.facts.lib
+    if not res.anchor(lib.body(SLICE_EXEC) is not None, SLICE_EXEC):
+        return res
+    own = for_crate(lib)
+    members = list(own.members(SLICE_EXEC)) + [b for b in lib.bodies.values() if b.id.startswith("instruction::slicing::Slicing::exec_index")]
+    seen = set()
+    n = 0
+    for hb in members:
+        if hb.id in seen:
+            continue
+        seen.add(hb.id)
+        for _, s in hb.assigns():
+            rv = s["rv"]
+            if rv["k"] != "cast" or "IntToInt" not in rv.get("kind", "") or rv.get("src") != "i64" or rv.get("dst") != "isize":
+                continue
+            n += 1
+            o = rv["o"]
+            ok = False
+            cur = o
+            for _ in range(5):
+                if not isinstance(cur, dict) or cur.get("l") is None:
+                    break
+                ds = hb.def_sites(cur["l"])
+                if any(k == "call" and ((d["func"].get("fn") or {}).get("path", "").rsplit("::", 1)[-1] in ("max", "clamp")) for _, k, d in ds):
+                    ok = True
+                    break
+                nxt = [d["rv"]["o"] for _, k, d in ds if k == "assign" and d["rv"]["k"] == "use"]
+                if len(nxt) != 1:
+                    break
+                cur = nxt[0]
+            key = "slicemin:%s" % hb.id.split("::{closure")[0]
+            if ok:
+                res.ok(key, hb.where(s.get("line")), "bounded below before the conversion")
+            else:
+                res.bad(key, "a slice bound is handed to slyce as it is: for MIN_INT slyce's negation overflows - "
+                             "`[1, 2, 3][-9223372036854775807 - 1:]` panics instead of yielding the whole array", hb.where(s.get("line")))
+    res.floor(n, 1, "i64 -> isize conversions of slice bounds")
     return res
